@@ -459,6 +459,10 @@ def configs(tier: str, seed: int, classes=None, extra_stop=True):
         if cn not in GP:
             combos.append(dict(objective=objs[0], elitism=True, minimization=False, g2p="scalar", init=False))
             combos.append(dict(objective="asym", elitism=False, minimization=True, g2p="scalar", init=False))
+        # an objective that hands back a VIEW of the array it was given (a column of the population / of the phenotypes), minimised
+        if cn not in GP:
+            combos.append(dict(objective="view", elitism=False, minimization=True, g2p=False, init=True))
+            combos.append(dict(objective="view", elitism=True, minimization=True, g2p="same", init=False))
         # a best value of exactly 0 (falsy), with and without elitism
         combos.append(dict(objective="zero", elitism=False, minimization=False, g2p=False, init=False))
         combos.append(dict(objective="zero", elitism=True, minimization=False, g2p=False, init=False))
